@@ -64,6 +64,24 @@ def c12_laws(kind, n1=0, n2=0, s1="", s2="", **kw):
         b = mk(n2, s2)
         with ignore_fields_for_comparison(["s", "_generated"]):
             bad = _laws(a, b, n1 == n2)
+    elif kind == "inplace":
+        D2 = RecordDescriptor("c12/lists", [("path[]", "ps"), ("net.ipaddress[]", "ips"), ("string[]", "ss"), ("uint16[]", "us")])
+        a = D2(ps=["/a", "/b"], ips=["1.2.3.4", "::1"], ss=["x", "y"], us=[1, 2])
+        b = D2(ps=["/a"], ips=[], ss=["x"], us=[1], _generated=a._generated)
+        b.ps.append("/b")
+        b.ips.extend(["1.2.3.4", "::1"])
+        b.ss.append("y")
+        b.us.append(2)
+        bad = _laws(a, b, True)
+    elif kind == "nested_ignored":
+        import datetime
+
+        I, O = RecordDescriptor("c12/inner", [("string", "s")]), RecordDescriptor("c12/outer", [("record", "r"), ("record[]", "rs")])
+        T1, T2 = datetime.datetime(2020, 1, 1, tzinfo=datetime.timezone.utc), datetime.datetime(2021, 1, 1, tzinfo=datetime.timezone.utc)
+        a = O(r=I(s="x", _generated=T1, _source="one"), rs=[I(s="y", _generated=T1)], _generated=T1)
+        b = O(r=I(s="x", _generated=T2, _source="two"), rs=[I(s="y", _generated=T2)], _generated=T2)
+        with ignore_fields_for_comparison(["_generated", "_source"]):
+            bad = _laws(a, b, True)
     elif kind == "descriptor":
         A, B = RecordDescriptor("c12/x", [("varint", "n")]), RecordDescriptor("c12/x", [("varint", "n"), ("string", "s")])
         a = A(n=n1)
